@@ -14,7 +14,7 @@ theorem absent_gets_default (w : Wire) (env : Env) (f : Nat) (ty : GoTy) (field 
     (hlit : literal env f (fieldTyOf ty field) dv = .ok x) :
     runAfter w env (f + 1) ty (.dflt field k dv :: rest) (some kvs) plain =
       runAfter w env f ty rest (some kvs) (setField plain field x) := by
-  simp only [runAfter, habs, ↓reduceIte]
+  simp only [runAfter, dfltAbsent, habs, ↓reduceIte]
   simp [hok, hlit]
 
 /-- **null ⇒ default** -/
@@ -24,7 +24,7 @@ theorem null_gets_default (w : Wire) (env : Env) (f : Nat) (ty : GoTy) (field k 
     (hlit : literal env f (fieldTyOf ty field) dv = .ok x) :
     runAfter w env (f + 1) ty (.dflt field k dv :: rest) (some kvs) plain =
       runAfter w env f ty rest (some kvs) (setField plain field x) := by
-  simp only [runAfter, hnull, ↓reduceIte]
+  simp only [runAfter, dfltAbsent, hnull, ↓reduceIte]
   simp [hok, hlit]
 
 /-- **present wins**: a present non-null value is never overwritten by the default -/
@@ -33,7 +33,7 @@ theorem present_wins (w : Wire) (env : Env) (f : Nat) (ty : GoTy) (field k : Str
     (hpres : alookup k kvs = some v) (hnn : v ≠ .null) :
     runAfter w env (f + 1) ty (.dflt field k dv :: rest) (some kvs) plain =
       runAfter w env f ty rest (some kvs) plain := by
-  simp only [runAfter, hpres]
+  simp only [runAfter, dfltAbsent, hpres]
   cases v <;> simp_all
 
 /-- **the literal has the field's type and the default's value** (scalar fields): what `literalOK` admits is
